@@ -11,7 +11,7 @@ import QV.Proofs.ServerSignedDecode
 import QV.Proofs.ServerEcho
 
 namespace QV.ServerContent
-open QV QV.Writer QV.Server QV.ServerSafety QV.ServerScan QV.ServerAnswer QV.Spec.Resolve
+open QV QV.Writer QV.Server QV.ServerSafety QV.ServerScan QV.ServerAnswer QV.Spec.Resolve QV.Spec
 
 /-! ### the body of the log and the view of the log -/
 
@@ -113,7 +113,19 @@ theorem good_handleNonAxfrQueryL (z : Zone.Zone) (hz : ZoneOK z) (qname : WName)
     Good (handleNonAxfrQueryL z qname qtype tr ⟨w, []⟩).2.w
       (bodyOf b0 (handleNonAxfrQueryL z qname qtype tr ⟨w, []⟩).2.log) := by
   obtain ⟨hI, hl, mb, hc⟩ := hG
-  exact clay_handleNonAxfrQueryL z hz qname hq qtype tr hsub w hI hh hl mb hc
+  obtain ⟨v0, hv0⟩ := hdrView_exists w
+  obtain ⟨h1, h2, h3, _⟩ := clay_handleNonAxfrQueryL z hz qname hq qtype tr hsub w hI hh hl mb hc v0 hv0
+  exact ⟨h1, h2, h3⟩
+
+/-- … and its header shows the AA, TC and RCODE of the view of the log, if AA, TC and RCODE were
+    clear before -/
+theorem hdr_handleNonAxfrQueryL (z : Zone.Zone) (hz : ZoneOK z) (qname : WName) (hq : qname.WF)
+    (qtype : Nat) (tr : Transport) (hsub : z.apex <:+ fold qname) (w : State) (b0 : Body) (hG : Good w b0)
+    (hh : HintOK Writer.Den w .qname qname) (h0 : HdrView w {}) :
+    HdrView (handleNonAxfrQueryL z qname qtype tr ⟨w, []⟩).2.w
+      (view (handleNonAxfrQueryL z qname qtype tr ⟨w, []⟩).2.log) := by
+  obtain ⟨hI, hl, mb, hc⟩ := hG
+  exact (clay_handleNonAxfrQueryL z hz qname hq qtype tr hsub w hI hh hl mb hc {} h0).2.2.2
 
 /-- … in particular its own additional records are address records (C05's log-level fact
     `LogsT.inner`, carried to the layout) -/
@@ -182,17 +194,88 @@ theorem good_handleQuery (cfg : Cfg) (hcfg : CfgWF cfg) (tr : Transport) (qn : W
 
 /-! ### the final writer of a response that a loaded zone produces -/
 
-/-- **when a loaded zone answers** (verdict `answer`, no TSIG): the writer `handle_message` hands to
-    `finish` is `Good` — the writer's invariant, a limit of at most 65 535 octets, and the content
-    layout of: the question, then the records of the successful `add_*` calls of the answering
-    phase; its own additional records are address records. -/
-theorem answer_final_good (cfg : Cfg) (hcfg : CfgWF cfg) (tr : Transport) (now bufLen : Nat) (req : Bytes)
-    (hbuf : minBuf tr cfg.payload ≤ bufLen) (hpay : 512 ≤ cfg.payload) (hp16 : cfg.payload ≤ 65535)
+theorem specTail_answer (lookup : List UInt8 → Nat → Option Spec.Server.ZoneKind) (S : Nat) (msg : Bytes)
+    (q : Option Spec.DQuestion) (p1 an ns ar op : Nat)
+    (hv : (specTail lookup S msg q p1 an ns ar op).verdict = .answer) :
+    ∃ qq, q = some qq ∧ ¬ (251 ≤ qq.qtype ∧ qq.qtype ≤ 254) ∧ qq.qclass ≠ 255 ∧
+      lookup qq.qname qq.qclass = some .loaded := by
+  unfold specTail at hv
+  split at hv
+  · cases hv
+  · split at hv
+    · cases hv
+    · cases hv
+    · cases hv
+    · simp only at hv
+      split at hv
+      · cases hv
+      · split at hv
+        · cases hv
+        · cases q with
+          | none => cases hv
+          | some qq =>
+            simp only at hv
+            split at hv
+            · cases hv
+            · split at hv
+              · cases hv
+              · rename_i h1 h2
+                refine ⟨qq, rfl, h1, h2, ?_⟩
+                split at hv
+                · cases hv
+                · rename_i h; exact h
+                · rename_i x hx _
+                  cases x <;> simp_all
+
+
+/-- `handle_query` when the catalog selects a loaded zone -/
+theorem handleQuery_loaded (cfg : Cfg) (tr : Transport) (qn : WName) (qt qc : Nat) (S : State)
+    (h1 : ¬ (251 ≤ qt ∧ qt ≤ 254)) (h2 : qc ≠ 255) (e : Catalog.Entry Unit)
+    (hl : Catalog.lookup (mkCatalog cfg.zones) qn.labels qc = some e) (hk : e.kind = .Loaded)
+    (ze : ZoneEntry) (hze : cfg.zones[e.zone]? = some ze) :
+    handleQuery cfg (some (qn, qt, qc)) tr S = handleNonAxfrQuery ze.zone qn qt tr S := by
+  unfold handleQuery
+  simp only [QT_IXFR, QT_AXFR, QT_MAILB, QT_MAILA, QC_ANY_eq]
+  have hm : (qt = 251 ∨ qt = 252 ∨ qt = 253 ∨ qt = 254) ↔ (251 ≤ qt ∧ qt ≤ 254) := by omega
+  simp only [hm, h1, if_false, h2, hl, hk, hze]
+
+theorem h2val_clear (opcode : Nat) (rd : Bool) : aaBit (h2val opcode rd) = false ∧ tcBit (h2val opcode rd) = false := by
+  unfold h2val opF bitF
+  generalize UInt8.ofNat opcode = y
+  split <;> cases rd <;> (revert y; apply Wire.forall_uint8; unfold aaBit tcBit; decide +kernel)
+
+/-- the writer the scan hands over has AA, TC and RCODE clear -/
+theorem hdrView_scan_state (bufLen : Nat) (tr : Transport) (payload id opcode : Nat) (rd : Bool)
+    (hbuf : minBuf tr payload ≤ bufLen) (hpay : 512 ≤ payload) (msg : Bytes) (q : Option Spec.DQuestion)
+    (hq : ∀ x, q = some x → ∃ nx, Spec.specQuestionAt msg 12 = some (x.qname, x.qtype, x.qclass, nx))
+    (e : Bool) (l : Nat) :
+    HdrView (arSt (qSt (hdrSt (w0 bufLen (lim0 tr)) id opcode rd) q) tr payload e l) {} := by
+  obtain ⟨_, _, _, _, o2, h30, _⟩ := s1_facts bufLen tr payload id opcode rd hbuf hpay msg q hq
+  obtain ⟨f1, _⟩ := arSt_fields (qSt (hdrSt (w0 bufLen (lim0 tr)) id opcode rd) q) tr payload e l
+  obtain ⟨c1, c2⟩ := h2val_clear opcode rd
+  unfold HdrView
+  rw [f1, h30, Array.getD_eq_getD_getElem?, o2]
+  exact ⟨c1, c2, rfl⟩
+
+
+/-- **when a loaded zone answers** (verdict `answer`, no TSIG), explicitly: the request carries one
+    question `q` whose QNAME parses to `qn`, QTYPE is no transfer type, QCLASS is not ANY, the catalog
+    has a loaded zone for it, and `handle_message_with_context` is `handle_query` run on the state the
+    scan leaves — `Writer::new`, the header setters, `add_question`, then `set_edns` / `set_limit` as
+    the scan's `edns` / `limitUdp` say -/
+theorem hwc_answer_state (cfg : Cfg) (tr : Transport) (now bufLen : Nat) (req : Bytes)
+    (hbuf : minBuf tr cfg.payload ≤ bufLen) (hpay : 512 ≤ cfg.payload)
     (h12 : 12 ≤ req.size) (hreq : req.size ≤ Rdata.USIZE_MAX) (id opcode : Nat) (rd : Bool)
     (hv : (specBody (catKind cfg) cfg.payload req).verdict = .answer) :
-    ∃ bd, Good (handleWithContext cfg tr now ⟨req, 12, none⟩ (hdrSt (w0 bufLen (lim0 tr)) id opcode rd)).2 bd ∧
-      bd.qs = (qBody (specBody (catKind cfg) cfg.payload req).question).qs ∧
-      ∀ r ∈ bd.ar, r.ty = 1 ∨ r.ty = 28 := by
+    ∃ (q : Spec.DQuestion) (qn : WName) (nx : Nat),
+      (specBody (catKind cfg) cfg.payload req).question = some q ∧
+      Spec.specQuestionAt req 12 = some (q.qname, q.qtype, q.qclass, nx) ∧
+      WName.parse q.qname = some (qn, []) ∧ qn.wire = q.qname ∧ q.qname.length ≤ 255 ∧
+      ¬ (251 ≤ q.qtype ∧ q.qtype ≤ 254) ∧ q.qclass ≠ 255 ∧ catKind cfg q.qname q.qclass = some .loaded ∧
+      handleWithContext cfg tr now ⟨req, 12, none⟩ (hdrSt (w0 bufLen (lim0 tr)) id opcode rd) =
+        (handleQuery cfg (some (qn, q.qtype, q.qclass)) tr >>= fun _ => pure true)
+          (arSt (qSt (hdrSt (w0 bufLen (lim0 tr)) id opcode rd) (some q)) tr cfg.payload
+            (specBody (catKind cfg) cfg.payload req).edns (specBody (catKind cfg) cfg.payload req).limitUdp) := by
   obtain ⟨hqd, han, hns, har, _, hop, _, _⟩ := reader_header req h12
   have hH := hdrSt_ok bufLen tr cfg.payload id opcode rd hbuf hpay
   rw [Server.handleWithContext_split]
@@ -229,7 +312,7 @@ theorem answer_final_good (cfg : Cfg) (hcfg : CfgWF cfg) (tr : Transport) (now b
           unfold specBody
           simp only [hq1, show ¬ ((1 : Nat) > 1) by omega, if_false, show ¬ ((1 : Nat) = 0) by omega, hsq]
         rw [hsc] at hv ⊢
-        obtain ⟨hadd, hbase, _, hcur, _, _, _, _, hrrs⟩ := qSt_some _ tr cfg.payload hH ⟨w, t, c⟩ qn hqn hqw hwl
+        obtain ⟨hadd, hbase, _⟩ := qSt_some _ tr cfg.payload hH ⟨w, t, c⟩ qn hqn hqw hwl
         simp only [hrq, hqn]
         have hQ : Server.addQuestionOrServfail (some (qn, t, c)) (hdrSt (w0 bufLen (lim0 tr)) id opcode rd) =
             (.ok true, qSt (hdrSt (w0 bufLen (lim0 tr)) id opcode rd) (some ⟨w, t, c⟩)) := by
@@ -242,36 +325,70 @@ theorem answer_final_good (cfg : Cfg) (hcfg : CfgWF cfg) (tr : Transport) (now b
         simp only [Bool.not_true, Bool.false_eq_true, if_false]
         rw [scanAndDispatch_answer cfg tr now req (some ⟨w, t, c⟩) (some (qn, t, c))
           ⟨req, nx, none⟩ ⟨h12, hnxs⟩ rfl _ hbase hreq tsigFacts _ _ _ _ hv]
-        obtain ⟨_, hl1, hl2, hqq⟩ := specTail_props (catKind cfg) cfg.payload req (some ⟨w, t, c⟩) nx
+        obtain ⟨_, _, _, hqq⟩ := specTail_props (catKind cfg) cfg.payload req (some ⟨w, t, c⟩) nx
           (Spec.Server.hdr req 6) (Spec.Server.hdr req 8) (Spec.Server.hdr req 10) ((req.getD 2 0).toNat / 8 % 16)
-        rw [hqq]
-        generalize hsce : (specTail (catKind cfg) cfg.payload req (some ⟨w, t, c⟩) nx (Spec.Server.hdr req 6)
-          (Spec.Server.hdr req 8) (Spec.Server.hdr req 10) ((req.getD 2 0).toNat / 8 % 16)).edns = e
-        generalize hscl : (specTail (catKind cfg) cfg.payload req (some ⟨w, t, c⟩) nx (Spec.Server.hdr req 6)
-          (Spec.Server.hdr req 8) (Spec.Server.hdr req 10) ((req.getD 2 0).toNat / 8 % 16)).limitUdp = l at hl1 hl2
-        have hqwf : qn.WF := parse_wf hqn
-        have hqr := queryReady_scan_state bufLen tr cfg.payload id opcode rd hbuf hpay hp16 ⟨w, t, c⟩ qn hqn hqw hwl
-          hqwf e l hl1 hl2
-        have hq : ∀ x, (some (⟨w, t, c⟩ : Spec.DQuestion)) = some x →
-            ∃ nx, Spec.specQuestionAt req 12 = some (x.qname, x.qtype, x.qclass, nx) := by
-          intro x hx; cases hx; exact ⟨nx, hsq⟩
-        have g1 := good_s1 bufLen tr cfg.payload id opcode rd hbuf hpay req (some ⟨w, t, c⟩) hq
-        have g2 := good_arSt _ tr cfg.payload e l _ g1 hbase hl1 hl2 hp16
-        have h3 : 3 < (arSt (qSt (hdrSt (w0 bufLen (lim0 tr)) id opcode rd) (some ⟨w, t, c⟩)) tr cfg.payload e l).octets.size := by
-          rw [arSt_size]; exact hbase.size3
-        obtain ⟨bd, hgd, hqs, hty⟩ := good_handleQuery cfg hcfg tr qn t c _ _ g2 (qBody_norecs _) hqwf hqr.hint h3
-        refine ⟨bd, ?_, hqs, hty⟩
-        rw [bind_apply]
-        generalize Server.handleQuery cfg (some (qn, t, c)) tr
-          (arSt (qSt (hdrSt (w0 bufLen (lim0 tr)) id opcode rd) (some ⟨w, t, c⟩)) tr cfg.payload e l) = res at hgd
-        obtain ⟨o, s'⟩ := res
-        cases o <;> exact hgd
+        obtain ⟨qq, hqq', c1, c2, c3⟩ := specTail_answer _ _ _ _ _ _ _ _ _ hv
+        cases hqq'
+        exact ⟨⟨w, t, c⟩, qn, nx, hqq, rfl, hqn, hqw, hwl, c1, c2, c3, rfl⟩
     · exfalso
       have hgt : Spec.Server.hdr req 4 > 1 := by omega
       have : specBody (catKind cfg) cfg.payload req = { respond := false } := by
         unfold specBody
         simp only [hgt, if_true]
       rw [this] at hv; cases hv
+
+/-- the state `handle_query` is entered in, for a request with question `q` -/
+abbrev scanState (cfg : Cfg) (tr : Transport) (bufLen : Nat) (req : Bytes) (id opcode : Nat) (rd : Bool)
+    (q : Spec.DQuestion) : State :=
+  arSt (qSt (hdrSt (w0 bufLen (lim0 tr)) id opcode rd) (some q)) tr cfg.payload
+    (specBody (catKind cfg) cfg.payload req).edns (specBody (catKind cfg) cfg.payload req).limitUdp
+
+/-- that state is `Good` with the question as its body, `QueryReady`, with AA / TC / RCODE clear -/
+theorem scanState_facts (cfg : Cfg) (tr : Transport) (bufLen : Nat) (req : Bytes)
+    (hbuf : minBuf tr cfg.payload ≤ bufLen) (hpay : 512 ≤ cfg.payload) (hp16 : cfg.payload ≤ 65535)
+    (id opcode : Nat) (rd : Bool) (q : Spec.DQuestion) (qn : WName) (nx : Nat)
+    (hsq : Spec.specQuestionAt req 12 = some (q.qname, q.qtype, q.qclass, nx))
+    (hqn : WName.parse q.qname = some (qn, [])) (hqw : qn.wire = q.qname) (hwl : q.qname.length ≤ 255) :
+    Good (scanState cfg tr bufLen req id opcode rd q) (qBody (some q)) ∧
+    QueryReady (scanState cfg tr bufLen req id opcode rd q) qn ∧
+    HdrView (scanState cfg tr bufLen req id opcode rd q) {} ∧
+    3 < (scanState cfg tr bufLen req id opcode rd q).octets.size := by
+  obtain ⟨_, hl1, hl2⟩ := specBody_props (catKind cfg) cfg.payload req
+  have hq : ∀ x, (some q) = some x → ∃ nx, Spec.specQuestionAt req 12 = some (x.qname, x.qtype, x.qclass, nx) := by
+    intro x hx; cases hx; exact ⟨nx, hsq⟩
+  have hH := hdrSt_ok bufLen tr cfg.payload id opcode rd hbuf hpay
+  obtain ⟨_, hbase, _⟩ := qSt_some _ tr cfg.payload hH q qn hqn hqw hwl
+  have g1 := good_s1 bufLen tr cfg.payload id opcode rd hbuf hpay req (some q) hq
+  refine ⟨good_arSt _ tr cfg.payload _ _ _ g1 hbase hl1 hl2 hp16,
+    queryReady_scan_state bufLen tr cfg.payload id opcode rd hbuf hpay hp16 q qn hqn hqw hwl (parse_wf hqn) _ _ hl1 hl2,
+    hdrView_scan_state bufLen tr cfg.payload id opcode rd hbuf hpay req (some q) hq _ _, ?_⟩
+  show 3 < (arSt _ tr cfg.payload _ _).octets.size
+  rw [arSt_size]; exact hbase.size3
+
+/-- **when a loaded zone answers** (verdict `answer`, no TSIG): the writer `handle_message` hands to
+    `finish` is `Good` — the writer's invariant, a limit of at most 65 535 octets, and the content
+    layout of: the question, then the records of the successful `add_*` calls of the answering
+    phase; its own additional records are address records. -/
+theorem answer_final_good (cfg : Cfg) (hcfg : CfgWF cfg) (tr : Transport) (now bufLen : Nat) (req : Bytes)
+    (hbuf : minBuf tr cfg.payload ≤ bufLen) (hpay : 512 ≤ cfg.payload) (hp16 : cfg.payload ≤ 65535)
+    (h12 : 12 ≤ req.size) (hreq : req.size ≤ Rdata.USIZE_MAX) (id opcode : Nat) (rd : Bool)
+    (hv : (specBody (catKind cfg) cfg.payload req).verdict = .answer) :
+    ∃ bd, Good (handleWithContext cfg tr now ⟨req, 12, none⟩ (hdrSt (w0 bufLen (lim0 tr)) id opcode rd)).2 bd ∧
+      bd.qs = (qBody (specBody (catKind cfg) cfg.payload req).question).qs ∧
+      ∀ r ∈ bd.ar, r.ty = 1 ∨ r.ty = 28 := by
+  obtain ⟨q, qn, nx, hq0, hsq, hqn, hqw, hwl, _, _, _, heq⟩ :=
+    hwc_answer_state cfg tr now bufLen req hbuf hpay h12 hreq id opcode rd hv
+  obtain ⟨g2, hqr, _, h3⟩ := scanState_facts cfg tr bufLen req hbuf hpay hp16 id opcode rd q qn nx hsq hqn hqw hwl
+  obtain ⟨bd, hgd, hqs, hty⟩ := good_handleQuery cfg hcfg tr qn q.qtype q.qclass _ _ g2 (qBody_norecs _)
+    (parse_wf hqn) hqr.hint h3
+  rw [heq, hq0]
+  refine ⟨bd, ?_, hqs, hty⟩
+  rw [bind_apply]
+  generalize Server.handleQuery cfg (some (qn, q.qtype, q.qclass)) tr
+    (arSt (qSt (hdrSt (w0 bufLen (lim0 tr)) id opcode rd) (some q)) tr cfg.payload
+      (specBody (catKind cfg) cfg.payload req).edns (specBody (catKind cfg) cfg.payload req).limitUdp) = res at hgd
+  obtain ⟨o, s'⟩ := res
+  cases o <;> exact hgd
 
 /-- **authenticated signed requests that a loaded zone answers**: the writer handed to `finish` is
     `Good` — the question, then the records of the successful `add_*` calls of the answering phase,
@@ -409,5 +526,400 @@ theorem signed_answer_final (cfg : Cfg) (hcfg : CfgWF cfg) (tr : Transport) (now
             · rw [hfin] at h4; cases h4
         · rw [hq] at h4; cases h4
         · rw [hq] at h4; cases h4
+
+/-! ### from the final writer to the decoded response -/
+
+/-- a decoded record is a record of the resolution: owner equal up to ASCII case, TYPE, CLASS, TTL
+    (as `Ttl::from` stores it) as 16/16/32-bit values, RDATA octet for octet if its type holds no
+    compressible name -/
+def RRMatch (x : RR) (dr : DRr) : Prop :=
+  ∃ o : WName, fold o = x.owner ∧ dr.owner.map lowerU8 = o.wire.map lowerU8 ∧
+    dr.ty = x.rtype % 65536 ∧ dr.cls = x.cls % 65536 ∧ dr.rawTtl = Writer.ttlFrom x.ttl % 4294967296 ∧
+    (x.rtype < 65536 → ∀ ts, componentTypes x.cls x.rtype = some ts → CompType.compressibleName ∉ ts →
+      dr.rdata = x.rdata ∧ dr.rdOk = true)
+
+theorem all2_rrmatch : ∀ (its : List RItC) (xs : List RR) (ds : List DRr),
+    its.map (fun it => recRR it.r) = xs.map clampTtl → All2 RMatch its ds → All2 RRMatch xs ds := by
+  intro its
+  induction its with
+  | nil =>
+    intro xs ds hm h
+    cases h
+    cases xs with
+    | nil => exact .nil
+    | cons x r => simp at hm
+  | cons it rest ih =>
+    intro xs ds hm h
+    cases h with
+    | cons hr t =>
+      cases xs with
+      | nil => simp at hm
+      | cons x xr =>
+        simp only [List.map_cons, List.cons.injEq] at hm
+        obtain ⟨he, hrest⟩ := hm
+        refine .cons ?_ (ih xr _ hrest t)
+        obtain ⟨r1, _, r3, r4, r5, _, r7⟩ := hr
+        have e1 : fold it.r.owner = x.owner := congrArg RR.owner he
+        have e2 : it.r.ty = x.rtype := congrArg RR.rtype he
+        have e3 : it.r.cls = x.cls := congrArg RR.cls he
+        have e4 : it.r.ttl = Writer.ttlFrom x.ttl := congrArg RR.ttl he
+        have e5 : it.r.rdata = x.rdata := congrArg RR.rdata he
+        exact ⟨it.r.owner, e1, r1, by rw [r3, e2], by rw [r4, e3], by rw [r5, e4], by
+          rw [← e2, ← e3, ← e5]; exact r7⟩
+
+theorem all2_append_left {α β : Type} {R : α → β → Prop} : ∀ (as1 as2 : List α) (bs : List β),
+    All2 R (as1 ++ as2) bs → ∃ b1 b2, bs = b1 ++ b2 ∧ All2 R as1 b1 ∧ All2 R as2 b2 := by
+  intro as1
+  induction as1 with
+  | nil => intro as2 bs h; exact ⟨[], bs, rfl, .nil, h⟩
+  | cons a r ih =>
+    intro as2 bs h
+    cases h with
+    | cons hr t =>
+      obtain ⟨b1, b2, e, h1, h2⟩ := ih as2 _ t
+      exact ⟨_ :: b1, b2, by rw [e]; rfl, .cons hr h1, h2⟩
+
+theorem u8_and15 (y : UInt8) : (y &&& 15).toNat = y.toNat % 16 := by
+  revert y; apply Wire.forall_uint8; decide +kernel
+
+theorem u8_flagbits (x : UInt8) : aaBit x = (x.toNat / 4 % 2 == 1) ∧ tcBit x = (x.toNat / 2 % 2 == 1) := by
+  revert x; apply Wire.forall_uint8; unfold aaBit tcBit; decide +kernel
+
+/-- the decoded RCODE, AA and TC are those the header octets of the final writer show -/
+theorem flags_of_hdrView (b : Bytes) (F : State) (v : View) (h2 : b[2]? = F.octets[2]?) (h3 : b[3]? = F.octets[3]?)
+    (hh : HdrView F v) (d : DMsg) (hd : specDecodeMsg b = some d) :
+    d.rcode = v.rcode % 16 ∧ d.aa = v.aa ∧ d.tc = v.tc := by
+  have hf := decode_flags b d hd
+  obtain ⟨a1, a2, a3⟩ := hh
+  have e2 : b.getD 2 0 = F.octets.getD 2 0 := by
+    rw [Array.getD_eq_getD_getElem?, Array.getD_eq_getD_getElem?, h2]
+  have e3 : b.getD 3 0 = F.octets.getD 3 0 := by
+    rw [Array.getD_eq_getD_getElem?, Array.getD_eq_getD_getElem?, h3]
+  unfold DMsg.rcode DMsg.aa DMsg.tc
+  rw [hf]
+  unfold Spec.Server.hdr
+  rw [e2, e3]
+  obtain ⟨f1, f2⟩ := u8_flagbits (F.octets.getD 2 0)
+  have hy := (F.octets.getD 3 0).toNat_lt
+  have hr : (F.octets.getD 3 0).toNat % 16 = v.rcode % 16 := by
+    have := congrArg UInt8.toNat a3
+    rw [u8_and15, u8_and15] at this
+    rw [this]
+    simp only [UInt8.toNat_ofNat']
+    omega
+  refine ⟨?_, ?_, ?_⟩
+  · rw [← hr]; omega
+  · rw [← a1, f1]
+    congr 2; omega
+  · rw [← a2, f2]
+    congr 2; omega
+
+
+theorem withCounts_hdr (s : State) (i : Nat) (h : i < 4) : (withCounts s)[i]? = s.octets[i]? := by
+  unfold withCounts
+  rw [writeAt_get_lt _ _ _ _ (by omega), writeAt_get_lt _ _ _ _ (by omega), writeAt_get_lt _ _ _ _ (by omega),
+    writeAt_get_lt _ _ _ _ (by omega)]
+
+/-- `finish` without a pending TSIG leaves the flag octets alone -/
+theorem finish_flags_plain (F : State) (hI : Writer.I F) (ht : F.tsig = none) (b : Bytes) (mac : Option (List UInt8))
+    (hf : Writer.finish F Server.macFn = .ok (b, mac)) : b[2]? = F.octets[2]? ∧ b[3]? = F.octets[3]? := by
+  have hi := hI.inv
+  have hsz : 12 ≤ F.octets.size := by
+    have := hi.hdr; have := hi.cur_av; have := hi.av_lim; have := hi.lim_size; omega
+  obtain ⟨_, ft⟩ := finish_inv_tail F Server.macFn ht hsz b mac hf
+  have hc := hi.hdr
+  have hcs : F.cursor ≤ F.octets.size := by
+    have := hi.cur_av; have := hi.av_lim; have := hi.lim_size; omega
+  cases he : F.edns with
+  | none =>
+    rw [he] at ft
+    simp only at ft
+    have key : ∀ i, i < 4 → b[i]? = F.octets[i]? := by
+      intro i hi4
+      rw [ft, ← withCounts_hdr F i hi4]
+      have hws : (withCounts F).size = F.octets.size := by unfold withCounts; simp
+      rw [Array.getElem?_extract]
+      simp only [Nat.zero_add, Nat.sub_zero]
+      rw [if_pos (by rw [hws]; omega)]
+    exact ⟨key 2 (by omega), key 3 (by omega)⟩
+  | some e =>
+    rw [he] at ft
+    simp only at ft
+    exact ⟨by rw [ft.2.2 2 (by omega), withCounts_hdr F 2 (by omega)],
+      by rw [ft.2.2 3 (by omega), withCounts_hdr F 3 (by omega)]⟩
+
+/-- **from a `Good` final writer to the decoded response** (no TSIG pending): if the body of the
+    writer is — record for record — a view `v`, and the header octets show `v`'s RCODE / AA / TC,
+    then every decoding of what `finish` returns has RCODE `v.rcode` (4 bits), AA and TC as in `v`,
+    answer and authority sections matching `v`'s one for one in order, and an additional section
+    that is `v`'s followed by the OPT record iff the EDNS slot is set -/
+theorem decoded_of_good_view (F : State) (bd : Body) (v : View) (hG : Good F bd) (hbv : BodyView bd v)
+    (hts : F.tsig = none) (hhv : HdrView F v) (b : Bytes) (mac : Option (List UInt8))
+    (hf : Writer.finish F Server.macFn = .ok (b, mac)) (d : DMsg) (hd : specDecodeMsg b = some d) :
+    d.rcode = v.rcode % 16 ∧ d.aa = v.aa ∧ d.tc = v.tc ∧
+    All2 RRMatch v.answer d.an ∧ All2 RRMatch v.authority d.ns ∧
+    ∃ ar' opt, d.ar = ar' ++ opt ∧ All2 RRMatch v.additional ar' ∧
+      opt.length = (if F.edns.isSome then 1 else 0) ∧ ∀ o ∈ opt, o.ty = 41 := by
+  obtain ⟨hI, hlim, mb, hL⟩ := hG
+  obtain ⟨f2, f3⟩ := finish_flags_plain F hI hts b mac hf
+  obtain ⟨g1, g2, g3⟩ := flags_of_hdrView b F v f2 f3 hhv d hd
+  have hsz : b.size ≤ 65535 := Nat.le_trans (finish_size_le_limit Server.macFn F hI.inv b mac hf) hlim
+  obtain ⟨d', qs, ian, ins, iar, hd', _, e2, e3, e4, _, m2, m3, m4, _, _⟩ :=
+    finish_decodes_content Server.macFn F bd mb hI hL b mac hf hsz
+  rw [hd] at hd'
+  cases hd'
+  obtain ⟨v1, v2, v3⟩ := hbv
+  refine ⟨g1, g2, g3, all2_rrmatch ian _ _ (by rw [← v1, ← e2, List.map_map]; rfl) m2,
+    all2_rrmatch ins _ _ (by rw [← v2, ← e3, List.map_map]; rfl) m3, ?_⟩
+  rw [hts] at e4
+  simp only [tsigRecs, List.append_nil] at e4
+  obtain ⟨t1, t2⟩ := map_take_eq (·.r) iar bd.ar (optRecs' F.edns) e4
+  have hsplit : iar = iar.take bd.ar.length ++ iar.drop bd.ar.length := (List.take_append_drop _ _).symm
+  rw [hsplit] at m4
+  obtain ⟨d1, d2, hd12, a1, a2⟩ := all2_append_left _ _ _ m4
+  have hm1 : (iar.take bd.ar.length).map (fun it => recRR it.r) = v.additional.map clampTtl := by
+    have : (iar.take bd.ar.length).map (fun it => recRR it.r) = ((iar.take bd.ar.length).map (·.r)).map recRR := by
+      rw [List.map_map]; rfl
+    rw [this, t1, v3]
+  refine ⟨d1, d2, hd12, all2_rrmatch _ _ _ hm1 a1, ?_, ?_⟩
+  · rw [← a2.length, ← List.length_map (f := (·.r)), t2]
+    cases F.edns <;> rfl
+  · intro o ho
+    obtain ⟨it, hit, hm⟩ := all2_mem_right a2 o ho
+    have : it.r ∈ optRecs' F.edns := by rw [← t2]; exact List.mem_map.mpr ⟨it, hit, rfl⟩
+    cases hed : F.edns with
+    | none => rw [hed] at this; simp [optRecs'] at this
+    | some e =>
+      rw [hed] at this
+      simp only [optRecs', List.mem_singleton] at this
+      rw [hm.2.2.1, this]
+      show Writer.T_OPT % 65536 = 41
+      rw [T_OPT_eq]
+
+
+/-! ### authenticated (TSIG) answers, decoded -/
+
+theorem endVerdict_answer (lookup : List UInt8 → Nat → Option Spec.Server.ZoneKind) (sz : Nat)
+    (q : Option Spec.DQuestion) (pos op : Nat) (hv : endVerdict lookup sz q pos op = .answer) :
+    ∃ qq, q = some qq ∧ ¬ (251 ≤ qq.qtype ∧ qq.qtype ≤ 254) ∧ qq.qclass ≠ 255 ∧
+      lookup qq.qname qq.qclass = some .loaded := by
+  unfold endVerdict at hv
+  split at hv
+  · cases hv
+  · split at hv
+    · cases hv
+    · cases q with
+      | none => cases hv
+      | some qq =>
+        simp only at hv
+        split at hv
+        · cases hv
+        · split at hv
+          · cases hv
+          · rename_i h1 h2
+            refine ⟨qq, rfl, h1, h2, ?_⟩
+            split at hv
+            · cases hv
+            · rename_i h; exact h
+            · rename_i x hx _
+              cases x <;> simp_all
+
+/-- `set_rcode(0)` and `set_tsig` leave AA / TC / RCODE clear -/
+theorem hdrView_withTsig (S : State) (h3 : 3 < S.octets.size) (h : HdrView S {}) (mode : TsigMode) (rr : TsigRr) :
+    HdrView (ServerTsig.withTsig (stRcode 0 S) mode rr) {} := by
+  have h1 := ((hdrStep_setRcode 0) S {} h).1
+  rw [setRcode_eq 0 S h3] at h1
+  exact hdrView_congr (h1 rfl) rfl rfl
+
+/-- `finish` with a pending TSIG leaves the flag octets alone -/
+theorem finish_flags_tsig (F : State) (hI : Writer.I F) (ts : Writer.Tsig) (hts : F.tsig = some ts) (b : Bytes)
+    (mac : Option (List UInt8)) (hf : Writer.finish F Server.macFn = .ok (b, mac)) :
+    b[2]? = F.octets[2]? ∧ b[3]? = F.octets[3]? := by
+  have hi := hI.inv
+  obtain ⟨_, _, oe, sT, _, _, _, _, hbl⟩ := finish_octets_tsig Server.macFn F hi.hdr ts hts b mac hf
+  have hsz : 12 ≤ F.octets.size := by
+    have := hi.hdr; have := hi.cur_av; have := hi.av_lim; have := hi.lim_size; omega
+  have key : ∀ i, i < 4 → b[i]? = F.octets[i]? := by
+    intro i hi4
+    rw [← Array.getElem?_toList, hbl]
+    unfold finishPrefix
+    have hl : (F.octets.toList.take 4).length = 4 := by
+      rw [List.length_take, Array.length_toList]; omega
+    rw [List.append_assoc, List.append_assoc, List.append_assoc, List.getElem?_append_left (by rw [hl]; exact hi4),
+      List.getElem?_take, if_pos hi4, Array.getElem?_toList]
+  exact ⟨key 2 (by omega), key 3 (by omega)⟩
+
+/-- **from a `Good` final writer to the decoded response**, whatever is pending: the additional
+    section is the view's, followed by the OPT record (iff the EDNS slot is set) and the TSIG record
+    (iff a TSIG is pending) -/
+theorem decoded_of_good_view' (F : State) (bd : Body) (v : View) (hG : Good F bd) (hbv : BodyView bd v)
+    (hhv : HdrView F v) (b : Bytes) (mac : Option (List UInt8))
+    (hf : Writer.finish F Server.macFn = .ok (b, mac))
+    (hfl : b[2]? = F.octets[2]? ∧ b[3]? = F.octets[3]?) (d : DMsg) (hd : specDecodeMsg b = some d) :
+    d.rcode = v.rcode % 16 ∧ d.aa = v.aa ∧ d.tc = v.tc ∧
+    All2 RRMatch v.answer d.an ∧ All2 RRMatch v.authority d.ns ∧
+    ∃ ar' rest, d.ar = ar' ++ rest ∧ All2 RRMatch v.additional ar' ∧
+      rest.length = (if F.edns.isSome then 1 else 0) + (if F.tsig.isSome then 1 else 0) ∧
+      ∀ o ∈ rest, o.ty = 41 ∨ o.ty = 250 := by
+  obtain ⟨hI, hlim, mb, hL⟩ := hG
+  obtain ⟨g1, g2, g3⟩ := flags_of_hdrView b F v hfl.1 hfl.2 hhv d hd
+  have hsz : b.size ≤ 65535 := Nat.le_trans (finish_size_le_limit Server.macFn F hI.inv b mac hf) hlim
+  obtain ⟨d', qs, ian, ins, iar, hd', _, e2, e3, e4, _, m2, m3, m4, _, _⟩ :=
+    finish_decodes_content Server.macFn F bd mb hI hL b mac hf hsz
+  rw [hd] at hd'
+  cases hd'
+  obtain ⟨v1, v2, v3⟩ := hbv
+  refine ⟨g1, g2, g3, all2_rrmatch ian _ _ (by rw [← v1, ← e2, List.map_map]; rfl) m2,
+    all2_rrmatch ins _ _ (by rw [← v2, ← e3, List.map_map]; rfl) m3, ?_⟩
+  rw [List.append_assoc] at e4
+  obtain ⟨t1, t2⟩ := map_take_eq (·.r) iar bd.ar (optRecs' F.edns ++ tsigRecs F.tsig mac) e4
+  have hsplit : iar = iar.take bd.ar.length ++ iar.drop bd.ar.length := (List.take_append_drop _ _).symm
+  rw [hsplit] at m4
+  obtain ⟨d1, d2, hd12, a1, a2⟩ := all2_append_left _ _ _ m4
+  have hm1 : (iar.take bd.ar.length).map (fun it => recRR it.r) = v.additional.map clampTtl := by
+    have : (iar.take bd.ar.length).map (fun it => recRR it.r) = ((iar.take bd.ar.length).map (·.r)).map recRR := by
+      rw [List.map_map]; rfl
+    rw [this, t1, v3]
+  refine ⟨d1, d2, hd12, all2_rrmatch _ _ _ hm1 a1, ?_, ?_⟩
+  · rw [← a2.length, ← List.length_map (f := (·.r)), t2, List.length_append]
+    cases F.edns <;> cases F.tsig <;> rfl
+  · intro o ho
+    obtain ⟨it, hit, hm⟩ := all2_mem_right a2 o ho
+    have : it.r ∈ optRecs' F.edns ++ tsigRecs F.tsig mac := by rw [← t2]; exact List.mem_map.mpr ⟨it, hit, rfl⟩
+    rcases List.mem_append.mp this with h | h
+    · left
+      cases hed : F.edns with
+      | none => rw [hed] at h; simp [optRecs'] at h
+      | some e =>
+        rw [hed] at h
+        simp only [optRecs', List.mem_singleton] at h
+        rw [hm.2.2.1, h]
+        show Writer.T_OPT % 65536 = 41
+        rw [T_OPT_eq]
+    · right
+      cases hts : F.tsig with
+      | none => rw [hts] at h; simp [tsigRecs] at h
+      | some ts =>
+        rw [hts] at h
+        simp only [tsigRecs, List.mem_singleton] at h
+        rw [hm.2.2.1, h]
+        show Writer.T_TSIG % 65536 = 250
+        rw [T_TSIG_eq]
+
+/-- **authenticated signed requests that a loaded zone answers, explicitly**: the request carries one
+    question `q`; the TSIG step leaves the state `S` = `set_rcode(0)` + `set_tsig(response TSIG)` on
+    the scan state; `S` is `Good`, `QueryReady`, has AA / TC / RCODE clear; and `handle_message` is
+    `handle_query` on `S`, then `finish` -/
+theorem signed_answer_state (cfg : Cfg) (tr : Transport) (now bufLen : Nat) (req : Bytes)
+    (hbuf : minBuf tr cfg.payload ≤ bufLen) (hpay : 512 ≤ cfg.payload) (hp16 : cfg.payload ≤ 65535)
+    (hreq : req.size ≤ Rdata.USIZE_MAX)
+    (hr : (Spec.Server.specScanWith (catKind cfg) cfg.payload req).respond = true)
+    (hv : (Spec.Server.specScanWith (catKind cfg) cfg.payload req).verdict = .tsigReached) :
+    ∃ (t : Tsig.ReadTsigRr) (mw : Bytes) (r' : Reader.Reader), r'.octets = req ∧ r'.cursor ≤ req.size ∧
+      ∀ r'' S, Server.tsigAfter cfg now t mw r' (preTsigState cfg tr bufLen req) = (.ok (some r''), S) →
+        endVerdict (catKind cfg) req.size (Spec.Server.specScanWith (catKind cfg) cfg.payload req).question
+          r'.cursor ((req.getD 2 0).toNat / 8 % 16) = .answer →
+      ∀ b, Server.handleMessage cfg tr now bufLen req = .ok (some b) →
+        ∃ q qn nowT alg key kn,
+          (Spec.Server.specScanWith (catKind cfg) cfg.payload req).question = some q ∧
+          WName.parse q.qname = some (qn, []) ∧
+          ¬ (251 ≤ q.qtype ∧ q.qtype ≤ 254) ∧ q.qclass ≠ 255 ∧ catKind cfg q.qname q.qclass = some .loaded ∧
+          Tsig.TimeSigned.tryFromUnix now = some nowT ∧
+          Tsig.Algorithm.fromName t.algorithm = some alg ∧ Server.findKey cfg.keys t.keyName alg = some key ∧
+          WName.parse t.keyName = some (kn, []) ∧
+          Tsig.verifyRequest Tsig.realHmac t mw.toList alg key.secret nowT = .ok () ∧
+          S = ServerTsig.withTsig (stRcode 0 (scanState cfg tr bufLen req (Spec.Server.hdr req 0)
+                (((req.getD 2 0).toNat &&& 120) >>> 3) (((req.getD 2 0).toNat &&& 1) != 0) q))
+              (.response (Server.toWriterAlg alg) t.mac key.secret) (ServerTsig.prepOf kn t nowT 0) ∧
+          Good S (qBody (some q)) ∧ QueryReady S qn ∧ HdrView S {} ∧
+          (∀ bb w1, (Server.handleQuery cfg (some (qn, q.qtype, q.qclass)) tr >>= fun _ => (pure true : M Bool)) S = (.ok bb, w1) →
+            w1.tsig = some (respTsig alg key kn t nowT) ∧
+            w1.edns.map (·.payload) =
+              (if (Spec.Server.specScanWith (catKind cfg) cfg.payload req).edns then some cfg.payload else none)) ∧
+          (.ok (some b) : Out Unit (Option Bytes)) =
+            match (Server.handleQuery cfg (some (qn, q.qtype, q.qclass)) tr >>= fun _ => (pure true : M Bool)) S with
+            | (.ok true, w1) =>
+              (match Writer.finish w1 Server.macFn with
+               | .ok (bytes, _) => .ok (some bytes)
+               | _ => .panic)
+            | (.ok false, _) => .ok none
+            | _ => .panic := by
+  obtain ⟨t, mw, r', question, h1, h2, hqrel, h4⟩ := handleMessage_tsig_eq cfg tr now bufLen req hbuf hpay hreq hr hv
+  refine ⟨t, mw, r', h1, h2, fun r'' S hT hev b hb => ?_⟩
+  rw [hT, hb] at h4
+  simp only [afterTsig, hev, if_true] at h4
+  obtain ⟨_, _, hsce⟩ := specScanWith_respond _ _ _ hr
+  unfold preTsigState at hT
+  rw [hsce] at hT hqrel hev ⊢
+  obtain ⟨q, hq0, c1, c2, c3⟩ := endVerdict_answer _ _ _ _ _ hev
+  obtain ⟨nx, hsq⟩ := specBody_question (catKind cfg) cfg.payload req q hq0
+  obtain ⟨p, hp, hpw, _, _, hwl⟩ := specQuestionAt_some req 12 _ _ _ nx hsq
+  obtain ⟨qn, hqn, hqw⟩ := wname_of_parse req 12 p hp
+  rw [hpw] at hqn hqw
+  rw [hq0] at hqrel
+  cases question with
+  | none => exact absurd hqrel (by simp [QRel])
+  | some qq =>
+    obtain ⟨qn', qt, qc⟩ := qq
+    obtain ⟨hqn', hqt, hqc⟩ := hqrel
+    have : qn = qn' := by rw [hqn] at hqn'; cases hqn'; rfl
+    subst this
+    subst hqt hqc
+    obtain ⟨gS, hqrS, hvS, h3S⟩ := scanState_facts cfg tr bufLen req hbuf hpay hp16 (Spec.Server.hdr req 0)
+      (((req.getD 2 0).toNat &&& 120) >>> 3) (((req.getD 2 0).toNat &&& 1) != 0) q qn nx hsq hqn hqw hwl
+    obtain ⟨_, p2, p3⟩ := specBody_props (catKind cfg) cfg.payload req
+    have hq : ∀ x, (specBody (catKind cfg) cfg.payload req).question = some x →
+        ∃ nx, Spec.specQuestionAt req 12 = some (x.qname, x.qtype, x.qclass, nx) :=
+      fun x hx => specBody_question (catKind cfg) cfg.payload req x hx
+    obtain ⟨hbase, hcur, _, _, _, h30, hs3, _, _, _, _, _, hrrs, hsz⟩ :=
+      s1_facts bufLen tr cfg.payload (Spec.Server.hdr req 0) (((req.getD 2 0).toNat &&& 120) >>> 3)
+        (((req.getD 2 0).toNat &&& 1) != 0) hbuf hpay req (specBody (catKind cfg) cfg.payload req).question hq
+    rw [hq0] at hT hbase hs3 hsz h30 hcur hrrs
+    unfold Server.tsigAfter at hT
+    cases hnow : Tsig.TimeSigned.tryFromUnix now with
+    | none => rw [hnow] at hT; cases hT
+    | some nowT =>
+      rw [hnow] at hT
+      simp only at hT
+      have h12s : 12 ≤ (scanState cfg tr bufLen req (Spec.Server.hdr req 0)
+          (((req.getD 2 0).toNat &&& 120) >>> 3) (((req.getD 2 0).toNat &&& 1) != 0) q).octets.size := by
+        show 12 ≤ (arSt _ tr cfg.payload _ _).octets.size
+        rw [arSt_size, hsz]; cases tr <;> simp only [minBuf] at hbuf <;> omega
+      obtain ⟨alg, key, kn, ha, hk, hkn, hver, _, hfit, hS⟩ :=
+        tsigProcess_some_state Tsig.realHmac cfg.keys _ h12s t mw.toList nowT r' r'' S hT
+      obtain ⟨hX, _⟩ := sigSt_facts _ tr cfg.payload (specBody (catKind cfg) cfg.payload req).edns
+        (specBody (catKind cfg) cfg.payload req).limitUdp 0 0 (by omega) (by omega)
+        hbase h30 hs3 p2 p3 (.response (Server.toWriterAlg alg) t.mac key.secret) (ServerTsig.prepOf kn t nowT 0)
+      have gB := good_stRcode 0 _ _ gS h3S
+      obtain ⟨l1, l2⟩ := prepOf_lengths kn t nowT 0
+      have hfit' := (stRcode_fits 0 _ _ _).mpr hfit
+      have gC := good_withTsig (.response (Server.toWriterAlg alg) t.mac key.secret) (ServerTsig.prepOf kn t nowT 0) _ _ gB
+        hfit' (parse_wf hkn) (algName_wf _) l1 l2
+      have hqr := queryReady_withTsig _ qn hqrS (.response (Server.toWriterAlg alg) t.mac key.secret)
+        (ServerTsig.prepOf kn t nowT 0) hfit' ⟨parse_wf hkn, algName_wf _, l1, l2⟩
+      have hhv := hdrView_withTsig _ h3S hvS (.response (Server.toWriterAlg alg) t.mac key.secret)
+        (ServerTsig.prepOf kn t nowT 0)
+      have hSrr : S.rrStart = (qSt (hdrSt (w0 bufLen (lim0 tr)) (Spec.Server.hdr req 0)
+          (((req.getD 2 0).toNat &&& 120) >>> 3) (((req.getD 2 0).toNat &&& 1) != 0)) (some q)).rrStart := by
+        rw [hS]
+        show (stRcode 0 (arSt _ tr cfg.payload _ _)).rrStart = _
+        have : ∀ x : State, (stRcode 0 x).rrStart = x.rrStart := by
+          intro x; unfold stRcode stHdr; cases x.edns <;> rfl
+        rw [this]
+        cases (specBody (catKind cfg) cfg.payload req).edns <;> cases tr <;> rfl
+      have hX' := hX
+      rw [← hS] at hX'
+      have hfr := framed_bind (k := true) (Server.framed_handleQuery 12 (by omega) cfg (some (qn, q.qtype, q.qclass)) tr)
+        (fun _ => framed_pure 12 true) S (by rw [hX'.cur, hcur]; omega) (by rw [hSrr, hrrs]; omega)
+      refine ⟨q, qn, nowT, alg, key, kn, hq0, hqn, c1, c2, c3, rfl, ha, hk, hkn, hver, hS, by rw [hS]; exact gC,
+        by rw [hS]; exact hqr, by rw [hS]; exact hhv, ?_, h4⟩
+      intro bb w1 hres
+      rw [hres] at hfr
+      obtain ⟨k1, k2⟩ := hfr.keep rfl
+      simp only at k1 k2
+      refine ⟨by rw [k1, hX'.tsig]; rfl, ?_⟩
+      rw [k2, hX'.edns]
+      cases (specBody (catKind cfg) cfg.payload req).edns <;> rfl
+
 
 end QV.ServerContent
